@@ -40,7 +40,7 @@ LINES = [b"",
          b"key: with colon"]
 KEYS = [None, b"HG:extra", b"x-custom", b"x-sig"]
 ENCS = [None, b"ISO-8859-1"]
-NAMES = [None, b"v1.0", b"rel/\xc3\xa9 x\xff"]
+NAMES = [None, b"v1.0", b"rel/\xc3\xa9-x\xff"]
 CHUNKS = [b"", b"hello\n", b"\x00\xff binary \n\n", b"x" * 70000, b"tree 0\x00"]
 
 
@@ -102,6 +102,7 @@ def render(toks, algo: str) -> bytes:
 
 
 # ----------------------------------------------------------------------------- TLC dump reader
+STRICT = {}       # (kind, key) -> GitStrictOK, filled by read_dump
 _RE_VAR = re.compile(r"^/\\ (\w+) = (.*)$")
 _RE_STR = re.compile(r'"([^"]*)"')
 
@@ -114,7 +115,7 @@ def read_dump(path: str):
     buf = []
 
     def flush():
-        if var in ("toks", "kind", "key"):
+        if var in ("toks", "kind", "key", "strict"):
             cur[var] = "".join(buf)
     with open(path, encoding="utf-8") as f:
         for line in f:
@@ -139,6 +140,8 @@ def _mk(cur):
     kind = _RE_STR.search(cur["kind"]).group(1)
     key = _RE_STR.search(cur["key"]).group(1)
     toks = _RE_STR.findall(cur["toks"])
+    if "strict" in cur:
+        STRICT[(kind, key)] = "TRUE" in cur["strict"]
     return kind, key, toks
 
 
